@@ -466,6 +466,8 @@ class Impl:
         self.mmgr = dict()      # 'm0' -> dd.mdd.MDD
         self.handles = dict()   # 'a0' -> {hid: Function}
         self.next_hid = dict()
+        self._vl_calls = 0
+        self.vl_always = True    # explicit total orders travel through `var_levels` (client idiom)
 
     def close(self):
         for b in self.mgr.values():
@@ -601,7 +603,15 @@ class Impl:
             return a.collect_garbage()
         if name == 'reorder':
             o = args[0]
-            return _a.reorder(a, None if o is None else {vname(k): l for k, l in o.items()})
+            if o is not None:
+                o = {vname(k): l for k, l in o.items()}
+                self._vl_calls += 1
+                if set(o) == set(a.vars) and (self.vl_always or self._vl_calls % 2 == 0):
+                    vl = a.var_levels     # (see op_reorder)
+                    for k in list(vl):
+                        vl[k] = o[k]
+                    o = vl
+            return _a.reorder(a, o)
         if name == 'configure':
             if args[0] is None:
                 return a.configure()['reordering']
@@ -725,6 +735,14 @@ class Impl:
     def op_reorder(self, b, order):
         if order is not None:
             order = {vname(k): l for k, l in order.items()}
+            self._vl_calls += 1
+            if set(order) == set(b.vars) and (self.vl_always or self._vl_calls % 2 == 0):
+                # the client idiom: read the order, permute it, hand it back.  The mapping
+                # that `var_levels` returns belongs to the caller
+                vl = b.var_levels
+                for k in list(vl):
+                    vl[k] = order[k]
+                order = vl
         _b.reorder(b, order)
 
     def op_reorder_to_pairs(self, b, pairs):
